@@ -205,6 +205,8 @@ class STANAG4609(PES):
         return r
 
     def __eq__(self, __value: object) -> bool:
+        if not isinstance(__value, STANAG4609):
+            return False
         if self.time_us != __value.time_us or self.stanag_counter != __value.stanag_counter:
             return False
         return super().__eq__(__value)
